@@ -384,10 +384,19 @@ GENOMIC_OPS_I = [(2, "ivals"), (2, "mask"), (3, "pileup"), (2, "pileup_sum"), (2
                  (2, "extend"), (1, "extend_clip_pileup"), (1, "merged"), (2, "pileup_at_windows"),
                  (2, "pileup_at_self"), (1, "max_at_self"), (1, "filter_by_max"),
                  (2, "multi_reduce_tuple"), (1, "multi_reduce_dict"), (2, "multi_data_tuple"), (1, "multi_data_dict"),
-                 (2, "multi_two_sources")]
+                 (2, "multi_two_sources"), (2, "location_windows"), (1, "pileup_arith")]
 GENOMIC_OPS_B = [(3, "track"), (2, "track_sum"), (2, "track_hist"), (2, "track_at_windows"),
                  (2, "track_at_stream_windows"), (2, "track_mean_cols"), (1, "track_mean_rows"), (1, "track_arith"),
                  (1, "track_gt"), (1, "from_track"), (1, "multi_track_tuple")]
+
+
+# constant on either side of commutative and non-commutative operators, explicit ufunc calls, unary minus
+ARITH = ["t*2+1", "3-t", "t-3", "1+t", "(t+1)/2", "6/(t+1)", "-t", "np.subtract(3,t)", "np.maximum(t,1)", "t*t", "2**t", "7//(t+1)"]
+
+
+def arith(expr, t):
+    import numpy as np
+    return eval(expr, {"np": np, "t": t})
 
 
 def build_genomic(ctx, tape, cap, source):
@@ -432,6 +441,14 @@ def build_genomic(ctx, tape, cap, source):
         params["t"] = tape.draw(3, "g.t")
     if op in ("track_gt", "from_track"):
         params["t"] = [0.0, 0.5, 1.0, 2.0][tape.draw(4, "g.t")]
+    if op in ("track_arith", "pileup_arith"):
+        params["expr"] = ARITH[tape.draw(len(ARITH), "g.expr")]
+    if op == "location_windows":
+        params["where"] = "start"    # the streamed form asserts where == 'start' (loud, not judged)
+        if tape.boolean("g.by_flank", 1, 2):
+            params["flank"] = tape.draw(5, "g.flank")
+        else:
+            params["window_size"] = 1 + tape.draw(8, "g.wsize")
     # secondary tables
     sec_rows, sec_kind, sec_stranded = None, None, False
     if op in ("pileup_at_windows", "track_at_windows", "track_at_stream_windows", "track_mean_rows"):
@@ -504,6 +521,12 @@ def build_genomic(ctx, tape, cap, source):
                 return tdata(fin(iv.extended_to_size(params["size"]).clip().get_pileup().get_data()))
             if op == "merged":
                 return idata(fin(iv.merged(params["distance"])))
+            if op == "location_windows":
+                loc = iv.get_location(params["where"])
+                w = loc.get_windows(flank=params["flank"]) if "flank" in params else loc.get_windows(window_size=params["window_size"])
+                return idata(fin(w))
+            if op == "pileup_arith":
+                return tdata(fin(arith(params["expr"], iv.get_pileup()).get_data()))
             if op == "pileup_at_windows":
                 w = genome.get_intervals(secondary(), stranded=sec_stranded)
                 return S.dense(fin(iv.get_pileup()[w]))
@@ -558,7 +581,7 @@ def build_genomic(ctx, tape, cap, source):
             w = sec.intervals(genome, sec_stranded, streamed)
             return S.dense(fin(tr[w]))
         if op == "track_arith":
-            return tdata(fin((tr * 2 + 1).get_data()))
+            return tdata(fin(arith(params.get("expr", "t*2+1"), tr).get_data()))
         if op == "track_gt":
             return tdata(fin((tr > params["t"]).get_data()), True)
         if op == "from_track":
